@@ -12,10 +12,11 @@ def main(tier):
     c = sup.Check('C01', tier, 'exploration')
     quick = tier == 'quick'
     only = os.environ.get('C01_ONLY')
-    c.set_deadline(int(os.environ.get('C01_DEADLINE', 175 if quick else 1750)))
     c.build('asan', ['c01'])
     if not quick:
         c.build('plain', ['c01'])
+    # the deadline bounds the exploration; a library rebuild after a change of /repo (up to ~80 s) is not counted against it
+    c.set_deadline(int(os.environ.get('C01_DEADLINE', 175 if quick else 2100)) + (time.time() - c.t0))
 
     def fam(name, flavour='asan', **kw):
         if only and name not in only.split(','):
@@ -26,6 +27,8 @@ def main(tier):
 
     # quick: every seed; every single deviation (families a-d + document bytes) of the math-free seeds x both parser modes;
     # MathML shapes of depth <= 2 (quick blocks); scale up to 250; cycles of length 1-3, every stage in isolation
+    # hang horizon for the connection graphs: 60 s in the shard, then 120 s alone (HEAD needs about 1 s per case under ASan)
+    fam('conn', per_case_timeout=4, chunk=1)
     fam('seeds', per_case_timeout=30, chunk=1)
     fam('cycles', per_case_timeout=20, chunk=6)
     fam('scale', per_case_timeout=60, chunk=2)
@@ -56,7 +59,7 @@ def main(tier):
              'seeds; shape_* = MathML trees over the validator\'s own vocabulary (supportedMathMLElements) + {csymbol, lambda, semantics, unknownop, sum}: '
              'apply(head, 0-3 ci|cn operands) and container(name, 0-3 children) top-level and as right-hand side, apply(H, C) for all H and C, one arbitrary '
              'operand among <= 3, containers with one arbitrary child, 10 filled qualifier forms in 5 arrangements, depth 3 over 14 arity-sensitive operators; '
-             'scale = 16 structures x n in {1,10,100} (thorough: 250, and 1000 on the plain build) x 8 isolated stages x 2 modes; cycles = 12 kinds x length 1-3 x 8 isolated '
+             'scale = 16 structures x n in {1,10,100} (thorough: 250, and 1000 on the plain build) x 8 isolated stages x 2 modes; conn = variable-equivalence networks (clique K_n and complete bipartite K_n,n for n in {4,8,12,16}; chain, star, ring for n in {10,100}; an ODE + reset inside and a constant outside the network; valid by construction) x 8 isolated stages with a 60 s / 120 s-alone hang horizon; cycles = 12 kinds x length 1-3 x 8 isolated '
              'stages x 2 modes. judged = cases whose pipeline ran and returned (the crash oracle covers the others: a dead worker is a violation at that index); '
              '%d of the judged cases also carry the weak expectation ">= 1 error/warning reported"' % weak,
         assumptions=[
